@@ -271,6 +271,9 @@ func plans(id, tier string) (Plan, bool) {
 			{Pkg: pkgPQ, Harness: "c20_queue", Params: "order=min;setindex=yes"},
 			{Pkg: pkgPQ, Harness: "c20_queue", Params: "order=max;setindex=yes"},
 			{Pkg: pkgPQ, Harness: "c20_queue", Params: "order=max;setindex=no"},
+			{Pkg: pkgPQ, Harness: "c20_queue_long", Shards: 16},
+			{Pkg: pkgSets, Harness: "c20_stringset", Params: "family=long", Shards: 8},
+			{Pkg: pkgIntSets, Harness: "c20_intset", Params: "family=long", Shards: 8},
 		}}, true
 	}
 	return Plan{}, false
